@@ -637,6 +637,7 @@ func Check(propID, tier string, runsOverride int, workers int) int {
 		"probes":                   agg.Probes,
 		"op_outcomes":              agg.OpOutcomes,
 		"distinct_abstract_states": len(states),
+		"abstract_state_measure":   "distinct ordered pairs of consecutive operation outcomes (kind:ok|fail) inside a block, the first operation paired with the block context (epoch end, evidence, absent votes, first block after a restart), plus the property's own state labels",
 		"runs_inconclusive":        aborted,
 		"known_findings_hit":       knownSeen,
 		"suppressed_after_known_hit": suppressed,
